@@ -14,10 +14,12 @@ the original, and a second load/store must reproduce the first store's
 bytes.
 """
 
+import io
+
 from dsim import domworld, gen, pipe
 from dsim import refmodel as R
 from dsim.actors import exc_summary, sized_reader_cls
-from dsim.world import SimReadHandle
+from dsim.world import SimEventCap, SimHang, SimReadHandle
 
 ID = 'C06'
 LEVEL = 'exploration'
@@ -74,6 +76,7 @@ def generate(rng, tier, cls):
 
     return {'actors': [prod], 'schedule': [], 'faults': [],
             'via': rng.choice(['from_stream', 'from_stream', 'from_bytes']),
+            'reuse': rng.chance(0.12),
             'block_size': rng.choice([None, None, 1, 17, 97])}
 
 
@@ -87,7 +90,26 @@ def contents(recs):
     return out
 
 
-def load(L, w, data, via, bs):
+def load(L, w, data, via, bs, reuse=False):
+    if reuse:
+        # one DiffXDOMReader object that already went through a parse of a
+        # damaged copy (failed, or ended early)
+        rd = L.DiffXDOMReader(L.DiffX)
+
+        if bs:
+            rd.reader_cls = sized_reader_cls(L, bs)
+
+        try:
+            rd.parse(SimReadHandle(w, data[:(2 * len(data)) // 3],
+                                   'editor-earlier'))
+        except (SimEventCap, SimHang):
+            raise
+        except Exception:
+            pass
+
+        h = SimReadHandle(w, data, 'editor')
+        return rd.parse(h), h
+
     if via == 'from_bytes':
         return L.DiffX.from_bytes(data), None
 
@@ -99,6 +121,19 @@ def load(L, w, data, via, bs):
         return rd.parse(h), h
 
     return L.DiffX.from_stream(h), h
+
+
+def serialise(L, w, tree, reuse):
+    if not reuse:
+        return tree.to_bytes()
+
+    # one DiffXDOMWriter object used twice: the second stream must get the
+    # whole file as well
+    wr = L.DiffXDOMWriter()
+    wr.write_stream(tree, io.BytesIO())
+    st = io.BytesIO()
+    wr.write_stream(tree, st)
+    return st.getvalue()
 
 
 def execute(scn, L):
@@ -163,9 +198,13 @@ def execute(scn, L):
 
     via = scn.get('via', 'from_stream')
     bs = scn.get('block_size')
+    reuse = bool(scn.get('reuse'))
+
+    if reuse:
+        out.probe('dom_reader_and_writer_objects_reused')
 
     try:
-        tree, h = load(L, w, data, via, bs)
+        tree, h = load(L, w, data, via, bs, reuse)
     except Exception as e:
         es = exc_summary(e, L)
 
@@ -183,7 +222,7 @@ def execute(scn, L):
                     for r in ref)
 
     try:
-        b1 = tree.to_bytes()
+        b1 = serialise(L, w, tree, reuse)
     except Exception as e:
         es = exc_summary(e, L)
 
